@@ -330,11 +330,11 @@ Lemma c15_relevant_ext R a a0 : (forall k, In k R -> c15_key k a = c15_key k a0)
   c15_relevant R a = c15_relevant R a0.
 Proof. intros H. unfold c15_relevant. apply map_ext_in. assumption. Qed.
 
-Lemma c15_build_spec sp st a :
+Lemma c15_build_spec sp st a : k_SU sp = [] ->
   fst (fst (c15_build sp st a)) = c15_relevant (k_R sp) a /\
   (c15_inv sp st -> c15_inv sp (snd (c15_build sp st a))).
 Proof.
-  unfold c15_build. destruct (a_cache a); simpl; split; auto.
+  intros HSU. unfold c15_build. rewrite HSU. destruct (a_cache a); simpl; split; auto.
   - intros _. unfold c15_inv. simpl. exists a. split; auto. intros k Hk. apply c15_lookupZ_stored. assumption.
 Qed.
 
@@ -344,7 +344,9 @@ Lemma c15_call_transparent sp st a :
   c15_keys_ok sp = true -> c15_inv sp st ->
   fst (fst (c15_call sp st a)) = c15_relevant (k_R sp) a /\ c15_inv sp (snd (c15_call sp st a)).
 Proof.
-  intros Hok Hinv. unfold c15_keys_ok in Hok. apply andb_true_iff in Hok. destruct Hok as [HRC HCS].
+  intros Hok Hinv. unfold c15_keys_ok in Hok. apply andb_true_iff in Hok. destruct Hok as [Hok HSU].
+  apply andb_true_iff in Hok. destruct Hok as [HRC HCS].
+  assert (HSU' : k_SU sp = []) by (destruct (k_SU sp); [reflexivity|discriminate]).
   unfold c15_call. destruct (s_obj st) as [[id built]|] eqn:Eo.
   - destruct (negb (a_override a || existsb (fun k => negb (c15_lookupZ k (s_keys st) =? c15_key k a)%Z) (k_C sp))) eqn:Ehit.
     + (* cache hit *)
@@ -362,8 +364,8 @@ Proof.
       destruct (k_copy sp); simpl; split; auto.
       * unfold c15_inv. simpl. exists a0. auto.
       * unfold c15_inv. rewrite Eo. exists a0. auto.
-    + destruct (c15_build_spec sp st a) as [B1 B2]. split; auto.
-  - destruct (c15_build_spec sp st a) as [B1 B2]. split; auto.
+    + destruct (c15_build_spec sp st a HSU') as [B1 B2]. split; auto.
+  - destruct (c15_build_spec sp st a HSU') as [B1 B2]. split; auto.
 Qed.
 
 Lemma c15_inv_init sp : c15_inv sp c15_init.
@@ -402,8 +404,21 @@ Lemma c15_missing_key_refuted : exists sp hist a,
   c15_keys_ok sp = false /\
   fst (fst (c15_call sp (c15_run sp c15_init hist) a)) <> c15_relevant (k_R sp) a.
 Proof.
-  exists {| k_R := [1; 2]%Z; k_C := [1]%Z; k_S := [1]%Z; k_TS := []; k_TU := []; k_copy := false |},
+  exists {| k_R := [1; 2]%Z; k_C := [1]%Z; k_S := [1]%Z; k_SU := []; k_TS := []; k_TU := []; k_copy := false |},
          [{| a_periodic := 1; a_projection := 7; a_engine := 0; a_cache := true; a_override := false |}],
+         {| a_periodic := 1; a_projection := 0; a_engine := 0; a_cache := true; a_override := false |}.
+  vm_compute. split; [reflexivity|discriminate].
+Qed.
+
+(* a machine that records the arguments of an uncached conversion is not transparent either:
+   cached X, uncached Y, then Y returns the object built for X *)
+Lemma c15_uncond_key_refuted : exists sp hist a,
+  c15_keys_ok sp = false /\
+  fst (fst (c15_call sp (c15_run sp c15_init hist) a)) <> c15_relevant (k_R sp) a.
+Proof.
+  exists {| k_R := [1; 2]%Z; k_C := [1; 2]%Z; k_S := []; k_SU := [1; 2]%Z; k_TS := []; k_TU := []; k_copy := false |},
+         [{| a_periodic := 1; a_projection := 7; a_engine := 0; a_cache := true; a_override := false |};
+          {| a_periodic := 1; a_projection := 0; a_engine := 0; a_cache := false; a_override := false |}],
          {| a_periodic := 1; a_projection := 0; a_engine := 0; a_cache := true; a_override := false |}.
   vm_compute. split; [reflexivity|discriminate].
 Qed.
